@@ -46,22 +46,47 @@ RESULTS = {
  "C19-B": ("C19 (also C13)", "C19/fcgi-status-out-of-range ; C13/status-out-of-range", "quick", False, "Status alphabet extended with three-character integers outside 100..999 (007, 099, -12, +99, 000)"),
  "C20-A": ("C20", "C20/status-mismatch", "quick", True, ""),
  "C20-B": ("C20", "C20/size-mismatch/h2", "quick", False, "new phase: the status/size oracle is repeated over HTTP/2 and HTTP/1.1 over TLS (static files via ServeContent, scripted handler bodies, error returns)"),
+ # ---- second round (agents were told what had been explored before and asked for schedule / fault / carried-state dependent changes)
+ "C01-2A": ("C01", "C01/misrouted/want-none-via-none/got-wildcard-host/prefix", "quick", True, ""),
+ "C01-2B": ("C01", "C01/misrouted/want-site-via-wildcard/got-not-found (targets /%C3%A9...)", "quick", False, "site path alphabet extended with a non-ASCII prefix (/é) and percent-encoded / raw UTF-8 targets below it"),
+ "C02-2A": ("C02", "C02/listing-names-entry-of-another-root/concurrent", "quick", False, "new concurrent battery: a slow reader of site alpha's >4 MiB listing overlapping 24 simultaneous listings of site beta's root; the harness side streams and discards peer bodies because its own garbage triggered collections that emptied the pool whose reuse is at stake"),
+ "C02-2B": ("C02", "C02/sibling-not-accepted", "quick", True, ""),
+ "C03-2A": ("C03", "C03/disclosed/basicauth/concurrent-login", "quick", False, "new concurrent battery: 4 clients with wrong passwords overlapping 4 clients with valid logins on a plain-password rule"),
+ "C03-2B": ("C03", "C03/disclosed/basicauth/concurrent-buffer", "quick", False, "new concurrent battery: anonymous slow reader of a public templated page (6 MiB, larger than the kernel absorbs) overlapping authenticated requests for a protected templated page of the same size"),
+ "C04-2A": ("C04", "C04/req-malformed-at-backend (chunked body: EOF after failover)", "quick", True, "the check already caught it but ran into its own 15 min limit because every affected case waited out a 20 s retry budget: retry budget cut to 4 s and the run stops issuing cases after 150 violations"),
+ "C04-2B": ("C04", "C04/req-hop-by-hop-forwarded/connection-named", "quick", True, ""),
+ "C05-2A": ("C05", "C05/e2e-body-incomplete-on-retry", "quick", True, ""),
+ "C05-2B": ("C14 (not C05)", "C14/conns-disagrees-with-forwards, C14/conns-out-of-range", "quick", True, "missed by C05 (its policy-level part sets the counters itself); the defect is one of in-flight accounting and is caught by C14's quiescent-point invariant"),
+ "C06-2A": ("C06", "C06/handshake-refused-within-site-settings, C06/wrong-site-config-governed", "quick", True, ""),
+ "C06-2B": ("C06", "C06/wrong-site-config-governed/wildcard", "quick", True, ""),
+ "C06-2C": ("C06", "C06/incompatible-same-name-accepted/*", "quick", True, ""),
+ "C07-2A": ("C07", "C07/failing-configuration-reported-as-loaded, C07/history-not-linearizable", "quick", False, "every fourth history reloads through an UNCHANGED Casketfile text that only imports a file which changes from reload to reload"),
+ "C07-2B": ("C07", "C07/in-flight-request-cut-by-reload", "quick", False, "grace period 0 mode added and the stalled (half-sent, later completed) requests are now judged: they must get one complete self-consistent response"),
+ "C08-2A": ("C08", "C08/instance-left-by-failed-load, C08/event-hooks-left-by-failed-load/restart", "quick", True, ""),
+ "C08-2B": ("C08", "race/caskethttp/httpserver.LogRoller.GetLogWriter | lumberjack millRunOnce", "quick", True, ""),
+ "C09-2A": ("C09", "C09/list-order/*-after-basicauth", "quick", False, "the order checks now run after ~230 loads that FAIL on misspelt directive names in the same process"),
+ "C09-2B": ("C09 (also C10)", "C09/perm-differs/* ; C10/roundtrip/inline", "quick", False, "line variant with a trailing comment that contains a double quote (C10 caught it as it was)"),
+ "C10-2A": ("C10", "C10/acyclic-import-rejected", "quick", True, ""),
+ "C10-2B": ("C10", "C10/roundtrip/*", "quick", False, "comment lines of 4-13 KB (longer than a lexer read buffer) added to the layout variation"),
 }
 
 VERIFY = {}
 for f in glob.glob("/tmp/verify_batch*.log"):
     for line in open(f):
-        m = re.match(r"/tmp/mut-(C\d\d)-out ([AB]): build=(\d+) suite=(\d+) demo_without=(\d+) demo_with=(\d+)", line)
+        m = re.match(r"/tmp/mut(2?)-(C\d\d)-out ([ABC]): build=(\d+) suite=(\d+) demo_without=(\d+) demo_with=(\d+)", line)
         if m:
-            VERIF = {"build_ok": m.group(3) == "0", "suite_passes_with_change": m.group(4) == "0",
-                     "demo_passes_without_change": m.group(5) == "0", "demo_fails_with_change": m.group(6) != "0"}
-            VERIFY[m.group(1) + "-" + m.group(2)] = VERIF
+            VERIF = {"build_ok": m.group(4) == "0", "suite_passes_with_change": m.group(5) == "0",
+                     "demo_passes_without_change": m.group(6) == "0", "demo_fails_with_change": m.group(7) != "0"}
+            VERIFY[m.group(2) + "-" + m.group(1) + m.group(3)] = VERIF
 
 def main():
     os.makedirs("/verif/seeded", exist_ok=True)
     for sid, (chk, key, tier, initially, strengthened) in sorted(RESULTS.items()):
         prop, letter = sid.split("-")
-        src = "/tmp/mut-%s-out" % prop
+        rnd = ""
+        if len(letter) == 2:
+            rnd, letter = letter[0], letter[1]
+        src = "/tmp/mut%s-%s-out" % (rnd, prop)
         if not os.path.exists(src + "/mutant-%s.diff" % letter):
             continue
         v = VERIFY.get(sid)
